@@ -333,9 +333,18 @@ func (f *frame) callContract(ct *Contract, sig *types.Signature, args []Val, pos
 	if ct.Logs != "" {
 		// calls of this function are recorded in a ghost call log visible to the callers
 		x.ghostLogCall(f.st, ct.Logs, args, res)
+	} else if ct.Extern {
+		// external calls are always ghost-logged under their own name
+		x.ghostLogCall(f.st, key, args, res)
+		x.vc.Assume["assumed contract of external call "+key] = true
 	}
 	post := x.contractEnv(ct, sig, args, f.st, pre)
 	x.bindResult(post, sig, res)
+	for i, r := range ct.Results {
+		if r.Name != "" && i < len(res.Fs) {
+			post.vars[r.Name] = res.Fs[i]
+		}
+	}
 	for i := range ct.Ensures {
 		c := ct.Ensures[i]
 		if c.KF != "" {
